@@ -72,7 +72,7 @@ func (g *sliceGen) step() {
 	for tries := 0; tries < 20; tries++ {
 		a := g.pick()
 		sa := g.vars[a]
-		switch rng.Intn(13) {
+		switch rng.Intn(14) {
 		case 0: // make
 			n := rng.Intn(4)
 			g.line("%s = make([]int, %d)", a, n)
@@ -220,7 +220,31 @@ func (g *sliceGen) step() {
 			g.line("copy(%s, %s)", a, b)
 			g.steps["copy"]++
 			return
-		case 8: // nil
+		case 8, 13:
+			if rng.Intn(2) == 0 {
+				// two appends from ONE base that has no spare capacity (also an empty make): two independent arrays
+				src := g.pick()
+				ss := g.vars[src]
+				if ss.isNil || ss.cap < 0 || ss.len != ss.cap {
+					continue
+				}
+				var others []string
+				for _, n := range g.names {
+					if n != src {
+						others = append(others, n)
+					}
+				}
+				g.line("%s = append(%s, %s)", others[0], src, g.input())
+				g.line("%s = append(%s, %s, %s)", others[1], src, g.input(), g.input())
+				g.narr++
+				*g.vars[others[0]] = slState{arr: g.narr, len: ss.len + 1, cap: -1}
+				g.narr++
+				*g.vars[others[1]] = slState{arr: g.narr, len: ss.len + 2, cap: -1}
+				g.steps["append-twice-from-full-base"]++
+				return
+			}
+			fallthrough
+		case 14: // nil
 			if rng.Intn(3) != 0 {
 				continue
 			}
